@@ -25,7 +25,7 @@ from symx.core import Var, Explorer, SymStr, declare, choose, choose_var, k_in, 
 from symx.run import Collector
 
 HNAME = "harness.discover"
-ALPHA = ".chCa"          # '.', the two accepted suffix letters, an upper-case look-alike, 'a' = any other character
+ALPHA = ".chCa "         # '.', the two accepted suffix letters, an upper-case look-alike, 'a' = any other character, a blank
 KINDS = ("file", "dir", "other")
 MISSING = "zz"           # not a name of the model (alphabet) and never created
 
@@ -469,10 +469,45 @@ def run_chunk(chunk, ctx):
         @staticmethod
         def run(command, **kw):
             # contract of `git check-ignore -q <path>`: 0 = ignored, 1 = not ignored
-            i = node_of(command[-1])
+            # contract of `git check-ignore --stdin`: paths are read from standard input one per line; the ignored ones are
+            # printed one per line exactly as given; 0 = at least one is ignored, 1 = none
+            m = state["model"]
+            if "-z" in command or "-v" in command or "-n" in command:
+                raise core.EngineGap("git check-ignore option outside the modelled contract")
+            if "--stdin" in command:
+                data = kw.get("input")
+                if data is None:
+                    raise core.EngineGap("git check-ignore --stdin without input")
+                if isinstance(data, bytes):
+                    data = data.decode()
+                hits = []
+                for line in (data.split("\n") if len(data) else []):
+                    if len(line) == 0:
+                        continue
+                    i = node_of(line)
+                    if i is not None and m.ignored[i]:
+                        hits.append(line)
+                out = ""
+                for h in hits:
+                    out = out + h + "\n"
+                pr = FakeProc(0 if hits else 1)
+                textmode = kw.get("universal_newlines") or kw.get("text") or kw.get("encoding")
+                pr.stdout = out if textmode else (out.encode() if isinstance(out, str) else out)
+                pr.stderr = "" if textmode else b""
+                return pr
+            paths = [c for c in command[2:] if not (isinstance(c, str) and c.startswith("-"))]
+            if len(paths) != 1:
+                raise core.EngineGap("git check-ignore with several paths")
+            i = node_of(paths[0])
             if i is None:
                 return FakeProc(128)
-            return FakeProc(0 if state["model"].ignored[i] else 1)
+            return FakeProc(0 if m.ignored[i] else 1)
+
+        @staticmethod
+        def check_output(command, **kw):
+            return FakeSubprocess.run(command, **kw).stdout
+
+    FakeSubprocess.CompletedProcess = FakeProc
 
     real_parse = argparse.ArgumentParser.parse_args
     fmt_cls = NE.HumanizedErrorsFormatter
